@@ -285,7 +285,8 @@ func decodeRune(b []byte) (rune, int) {
 // to inject a type error at any position. They deliberately include the
 // non-finite floats and a tab-led multi-line string.
 var TypeSwapScalars = []string{"null", "~", "true", "false", "123", "-7", "1.5", "1e3", ".nan", ".inf", "-.inf", "0x1f", "0o17", "2002-08-15", "[]", "{}", "[a, b]", "{a: b}",
-	"\"\\tx\\ny\"", "\" lead\\nsecond\"", "''", "\"\"", "!!binary aGk=", "!!str 12", "!!int x", "!!map []", "<<", "- x", "? y", "*nosuchanchor", "&newanchor v", "|", ">-", "plainword", "wait", "block", "command"}
+	"\"\\tx\\ny\"", "\" lead\\nsecond\"", "\"\\a\\vk\"", "\"\\x7f\\x01\"", "\"\\0\"", "\"\\U000E0001t\"", "\"\\U0001F600\"", "\"\\e[0m\"",
+	"18446744073709551615", "9223372036854775808", "0xFFFFFFFFFFFFFFFF", "-9223372036854775808", "0b1111111111111111111111111111111111111111111111111111111111111111", "1e400", "-0", "''", "\"\"", "!!binary aGk=", "!!str 12", "!!int x", "!!map []", "<<", "- x", "? y", "*nosuchanchor", "&newanchor v", "|", ">-", "plainword", "wait", "block", "command"}
 
 // StructFaultKinds lists structure-aware faults.
 var StructFaultKinds = []string{"struct.cut-at-token", "struct.type-swap", "struct.alias-retarget", "struct.line-delete", "struct.line-duplicate", "struct.line-swap",
